@@ -124,7 +124,8 @@ class _UnionNormType(_BasicNormType):
     # ensure stable order of args during one interpreter session
     def _make_orderable(self, obj: object) -> str:
         if isinstance(obj, BaseNormType):
-            return f"{obj.origin} {[self._make_orderable(arg) for arg in obj.args]}"
+            # distinct classes can have the same name, so id is used as tie-breaker
+            return f"{obj.origin} {id(obj.origin)} {[self._make_orderable(arg) for arg in obj.args]}"
         return str(obj)
 
     def _order_args(self, args: VarTuple[BaseNormType]) -> VarTuple[BaseNormType]:
@@ -150,7 +151,8 @@ class _LiteralNormType(_BasicNormType):
 
     # ensure stable order of args during one interpreter session
     def _make_orderable(self, obj: LiteralArg) -> str:
-        return f"{type(obj)}{obj.name}" if isinstance(obj, Enum) else repr(obj)
+        # distinct enum classes can have the same name, so id is used as tie-breaker
+        return f"{type(obj)}{id(type(obj))}{obj.name}" if isinstance(obj, Enum) else repr(obj)
 
     def _order_args(self, args: VarTuple[LiteralArg]) -> VarTuple[LiteralArg]:
         args_list = list(args)
